@@ -223,6 +223,30 @@ def rule_diff_param(repo: Repo) -> List[Ob]:
         ok = all(len(c.args) >= 1 and is_self_attr(c.args[0], "param", selfn) for c in diffs)
         obs.append(Ob(R, key, DRB, diffs[0].lineno, f.qualname, ok, "initial values are differentiated with respect to the parameter" if ok else
                       f"`{src(diffs[0])[:60]}` does not differentiate with respect to {selfn}.param"))
+    # a shortcut that answers 0 without differentiating is right only for a monomial NONE of whose variables depends on the parameter
+    for hname in ("DiffRecBuilder.get_initial_value", "DiffRecBuilder.get_recurrence"):
+        hf = repo.function(DRB, hname)
+        hc = cfg_of(hf.node)
+        for r in [x for x in walk_no_nested(hf.node) if isinstance(x, ast.Return) and isinstance(x.value, ast.Call) and call_name(x.value) in ("Zero", "sympify") and
+                  (not x.value.args or src(x.value.args[0]) == "0")]:
+            node = hc.node_of(r)
+            if node is None:
+                continue
+            facts = []
+            for t, reach in controlling_tests(hc, node):
+                if isinstance(t.ast, ast.expr):
+                    facts += conjuncts(t.ast, bool(reach))
+            for t, truth in facts:
+                txt = src(t)
+                if "dep_vars" not in txt and "dependent" not in txt:
+                    continue
+                keyz = f"{DRB}::{hname}::zero-shortcut"
+                if isinstance(t, ast.Call) and call_name(t) == "issubset":
+                    # `not X.issubset(dep)`: some variable is independent -- but the others may depend
+                    obs.append(Ob(R, keyz, DRB, r.lineno, hname, False,
+                                  f"0 is returned when `{txt}` is {truth}: that only says that not ALL variables of the monomial depend on the parameter; a product of a dependent and an independent variable has a non-zero derivative"))
+                elif isinstance(t, ast.Call) and call_name(t) == "isdisjoint" and truth:
+                    obs.append(Ob(R, keyz, DRB, r.lineno, hname, True, "0 is returned only if no variable of the monomial depends on the parameter"))
     g = repo.function(DRB, "DiffRecBuilder.get_solution")
     gs = g.params()[0]
     subs = [s for s in walk_no_nested(g.node) if isinstance(s, ast.Subscript) and isinstance(s.ctx, ast.Load)]
@@ -333,6 +357,19 @@ def rule_dependence_closure(repo: Repo) -> List[Ob]:
         obs.append(Ob(R, keyk, SA, f.node.lineno, f.qualname, True, "all kinds of assignments take part in the dependence analysis"))
     w, stable_exit = fix
     secs = sections_in(w)
+    if not secs:
+        # the loop may iterate a list that a helper (or an earlier statement) collected from both sections
+        for lp in [x for x in ast.walk(w) if isinstance(x, ast.For) and isinstance(x.iter, ast.Name)]:
+            for v in defs.defs.get(lp.iter.id, []):
+                if isinstance(v, ast.expr):
+                    secs |= sections_in(v)
+                    for hc in [x for x in ast.walk(v) if isinstance(x, ast.Call) and isinstance(x.func, ast.Attribute) and f.cls is not None]:
+                        hm = f.cls.find_method(hc.func.attr)
+                        if hm is not None:
+                            secs |= sections_in(hm.node)
+    if not secs:
+        obs.append(inconclusive(R, key, SA, w.lineno, f.qualname, "which sections the closure loop propagates through was not recognised"))
+        return obs
     if not stable_exit:
         obs.append(inconclusive(R, key, SA, w.lineno, f.qualname, "exit condition of the closure loop not recognised"))
     else:
